@@ -1,5 +1,5 @@
 # replay of a bounded stand-in violation (C13): re-run native/c13_tdm.py
 import sys
-print('N=[1] bands measured in order [0] timebins=2 shots=2: samples[0,0,1] identifies pulse 1, expected pulse 2 (band 0)')
+print('TDM N=3, 5 time bins, shift=2: running raises IndexError (the sample arrangement assumes a shift of one)')
 print('REPLAY-VIOLATION')
 sys.exit(1)
